@@ -1601,6 +1601,10 @@ pub fn run_c12(ctx: &Ctx, run: u64) -> RunReport {
             let mut er = Rng::derive(ctx.seed, run, &format!("c12.bench.{e}"));
             let (mut knobs, ev) = env_knobs(&mut er);
             knobs.initial_hash_mb = Some(1);
+            // 27 million nodes: polling at (almost) every node would exhaust the scheduler step budget
+            if matches!(knobs.poll_interval, Some(1) | Some(7) | Some(50)) {
+                knobs.poll_interval = Some(1000);
+            }
             let sc = ScenarioA { script: vec![Intent::Raw("bench".into()), Intent::Quit], knobs, clock_events: ev, sched_seed: er.next_u64(), schedule: None };
             let out = run_a(&sc, false);
             let line = out.transcript.iter().find(|l| l.contains(" nodes ") && l.contains(" nps")).cloned().unwrap_or_default();
@@ -1616,6 +1620,7 @@ pub fn run_c12(ctx: &Ctx, run: u64) -> RunReport {
             });
         }
         rep.digest = Some(super::rng::hash_str(&totals[0]));
+        rep.digest_excludes_fingerprints = true;
         return rep;
     }
     let newgame_mode = run % 3 == 2;
